@@ -83,7 +83,12 @@ func c30SiteGuardedLin(s c30Site, want string, name func(c30Access) string) (boo
 
 // c30GuardedBetween: every path of f from `from` (exclusive) to `to` takes an edge establishing want.
 func c30GuardedBetween(f *core.FuncInfo, from, to core.Point, want string, name func(c30Access) string) (bool, []core.Point) {
-	sc := &c30Scope{F: f}
+	return c30GuardedBetweenSc(&c30Scope{F: f}, from, to, want, name)
+}
+
+// c30GuardedBetweenSc is c30GuardedBetween in a given scope of f (e.g. one that marks stale locals).
+func c30GuardedBetweenSc(sc *c30Scope, from, to core.Point, want string, name func(c30Access) string) (bool, []core.Point) {
+	f := sc.F
 	w := core.ParseLinCmp(want)
 	return f.GuardedBetween(from, to, func(ft core.Fact) bool { return c30Implies(sc, ft, w, name, 2) })
 }
